@@ -52,7 +52,76 @@ def race_guard(ctx, out, what):
         i = out.index("WARNING: DATA RACE")
         ctx.report_mismatch("race:" + what.replace(" ", "-"), out[i:i + 3000], {"test": "RACE", "what": what})
 
+def shard(ctx):
+    """Shard/store: visibility under concurrent writers, readers, snapshots, compactions, deletes (race build)."""
+    if ctx.replay:
+        rp = json.load(open(ctx.replay))["replay"]
+        if rp.get("test") != "VIS":
+            return
+        sd = ctx.spec_dir("visibility")
+        p = os.path.join(ctx.scratch, "replay-vis.ndjson")
+        open(p, "w").write("\n".join(json.dumps(e) for e in rp["events"]) + "\n")
+        validate_vis(ctx, sd, [p])
+        return
+    sd = ctx.spec_dir("visibility")
+    ctx.write_cfg(sd, "V.cfg", "Spec", {"Series": ['"s1"', '"s2"'], "MaxK": 3, "Readers": ['"r1"', '"r2"']},
+                  ["TypeOK", "C19_ReadSeesAcked"])
+    ctx.tlc_check(sd, "Visibility", "V.cfg", workers=4, timeout=300)
+    tdir = os.path.join(ctx.scratch, "vis")
+    os.makedirs(tdir, exist_ok=True)
+    files = ["tsdb/zz_verif_conc_test.go"]
+    recs, out, rc = ctx.go_test("tsdb", files, "^TestVerifConcVisibility$", race=True, timeout=1800, label="visibility-race",
+                                env={"VERIF_TRACE_DIR": tdir, "VERIF_ROUNDS": ctx.pick(4, 24), "VERIF_PERWRITER": ctx.pick(50, 150)})
+    race_guard(ctx, out, "shard visibility")
+    d = ctx.process(recs, out, rc, "TestVerifConcVisibility")
+    traces = [r["file"] for r in recs if r.get("k") == "trace"]
+    if traces:
+        validate_vis(ctx, sd, traces)
+        ctx.add_sample({"visibility_trace_prefix": open(traces[0]).read().splitlines()[:10]})
+    ctx.cov["visibility_reads"] = d.get("reads", 0)
+    recs, out, rc = ctx.go_test("tsdb", files, "^TestVerifConcFieldTypes$", race=True, timeout=1800, label="fieldtypes-race",
+                                env={"VERIF_ROUNDS": ctx.pick(20, 200)})
+    race_guard(ctx, out, "field types")
+    ctx.process(recs, out, rc, "TestVerifConcFieldTypes")
+
+def validate_vis(ctx, sd, files):
+    consts = {"Series": ['"s1"', '"s2"', '"s3"'], "MaxK": 100000, "Readers": ['"r1"', '"r2"']}
+    ctx.write_cfg(sd, "T.cfg", "TraceSpec", consts, ["C19_ReadSeesAcked"], extra="POSTCONDITION TraceAccepted")
+    cat = os.path.join(ctx.scratch, "vis-cat.ndjson")
+    with open(cat, "w") as fh:
+        for f in files:
+            fh.write(open(f).read())
+    r = ctx.tlc_trace(sd, "VisibilityTrace", cat, "T.cfg", timeout=900)
+    if r["accepted"]:
+        ctx.cov["traces_validated_against_impl"] += len(files)
+        return
+    for f in files:
+        r = ctx.tlc_trace(sd, "VisibilityTrace", f, "T.cfg", timeout=600)
+        if not r["accepted"]:
+            lines = open(f).read().splitlines()
+            nxt = json.loads(lines[r["matched"]]) if 0 <= r["matched"] < len(lines) else {}
+            # every event of this trace is an observation of the property's own terms (acknowledgements and reads)
+            ctx.report_mismatch("vis:trace:" + str(nxt.get("e")), "recorded execution rejected at line %d: %s" % (r["matched"] + 1, nxt),
+                                {"test": "VIS", "events": [json.loads(x) for x in lines]})
+        else:
+            ctx.cov["traces_validated_against_impl"] += 1
+
+def hh_race(ctx):
+    """The hinted-handoff concurrent drivers of C04, built with the race detector."""
+    if ctx.replay:
+        return
+    files = ["hh/zz_verif_hh_test.go", "hh/zz_verif_hhproc_test.go"]
+    tdir = os.path.join(ctx.scratch, "hhtraces")
+    os.makedirs(tdir, exist_ok=True)
+    recs, out, rc = ctx.go_test("services/hh", files, "^(TestVerifHHConcurrent|TestVerifHHProcStress)$", race=True, timeout=1800,
+                                label="hh-race", env={"VERIF_TRACE_DIR": tdir, "VERIF_ROUNDS": ctx.pick(12, 100), "VERIF_MAXQW": 100000})
+    race_guard(ctx, out, "hinted handoff")
+    ctx.process(recs, out, rc, "TestVerifHHConcurrent")
+    ctx.process([r for r in recs if r.get("k") != "mismatch"], out, rc, "TestVerifHHProcStress")
+
 def run(ctx):
     pool(ctx)
+    shard(ctx)
+    hh_race(ctx)
     return ctx.finish("model_checking", {}, assumptions=[
         "data-race clause: decided by the Go race detector on the stress drivers, not by the specification"])
